@@ -12,6 +12,7 @@ package main
 import (
 	"encoding/json"
 	"fmt"
+	"k8s.io/apimachinery/pkg/runtime/schema"
 	"strings"
 )
 
@@ -90,7 +91,8 @@ func c02RunXW(s *xwScn) (c01Obs, []Mon) {
 			applied := strings.Contains(c, " ok>") && !strings.HasSuffix(c, ">notFound") && !strings.HasSuffix(c, ">invalid") || strings.Contains(c, " crashAfter>")
 			for k := range want {
 				parts := strings.SplitN(k, "/", 3) // Kind.group / ns / name
-				kind := strings.SplitN(parts[0], ".", 2)[0]
+				pgk := schema.ParseGroupKind(parts[0])
+				kind := xwModelKind(pgk.Group, pgk.Kind)
 				if applied && f[1] == kind+"/"+parts[2] && (f[0] == "delete" || f[0] == "update" || f[0] == "create") {
 					mons = append(mons, Mon{Sig: "C02:composer-write-to-foreign", Why: c})
 				}
